@@ -24,6 +24,10 @@ type Servers struct {
 	Net        []*Msg
 	Violations []Violation
 	seq        int
+	// Deaf members lose the appends and snapshots addressed to them (they lag behind; heartbeats and votes still arrive).
+	Deaf map[uint64]bool
+	// FailSend, when set, decides that the RPC carrying a raft message fails at the sender.
+	FailSend func(from uint64, m raftpb.Message) bool
 }
 
 // NewServers creates the world (no node started yet).
@@ -31,7 +35,7 @@ func NewServers() *Servers {
 	world.Quiet()
 	fakes.Reset()
 	vrt.ResetContexts()
-	w := &Servers{S: vrt.New()}
+	w := &Servers{S: vrt.New(), Deaf: map[uint64]bool{}}
 	w.S.Horizon = 20000000
 	fakes.Intercept = w.intercept
 	w.S.Begin()
@@ -133,6 +137,10 @@ func (w *Servers) intercept(target, method string, ctx context.Context, req inte
 		return true, nil, err
 	}
 	from := nodeOf(vrt.CurrentName())
+	if w.FailSend != nil && w.FailSend(from, m) {
+		// the RPC that carries this message fails (the sender is told so)
+		return true, nil, fakes.ErrUnavailable
+	}
 	w.Net = append(w.Net, &Msg{From: from, To: m.To, Raw: r, M: m})
 	return true, &pb.EmptyMessage{}, nil
 }
@@ -155,6 +163,9 @@ func (w *Servers) Deliver(m *Msg) {
 	n := w.Node(m.To)
 	if n == nil || n.Crashed {
 		return
+	}
+	if w.Deaf[m.To] && (m.M.Type == raftpb.MsgApp || m.M.Type == raftpb.MsgSnap) {
+		return // a lagging member: appends and snapshots addressed to it are lost, heartbeats and votes arrive
 	}
 	reg := fakes.Registry[world.ServerAddr(m.To)]
 	if reg == nil || reg.Raft == nil {
